@@ -110,7 +110,7 @@ inline void gen_durations(Tape& t, int N, double maxratio, std::vector<double>& 
   double lo = 1 / std::sqrt(ratio), hi = std::sqrt(ratio);
   T.assign(N, sigma);
   int shape = t.range(0, 5);
-  const char* names[] = {"all-equal", "one-short-among-long", "one-long-among-short", "alternating", "geometric-ramp", "log-uniform"};
+  const char* names[] = {"all-equal", "one-short-among-long", "one-long-among-short", "alternating", "geometric-ramp", "log-uniform", "nearly-equal"};
   if (N == 1) { shape = 0; ratio = 1; }
   if (ratio == 1) shape = 0;
   if (shape == 0) ratio = 1;
@@ -127,6 +127,13 @@ inline void gen_durations(Tape& t, int N, double maxratio, std::vector<double>& 
       T[a] = sigma * lo; T[b] = sigma * hi;  // both extremes present so the nominal ratio is the actual ratio
       break;
     }
+  }
+  // nearly equal neighbours: durations that differ by a tiny non-zero amount (a "uniform knots" shortcut with a tolerance instead of
+  // exact equality shows only here; seeded C02-3)
+  if (N >= 2 && t.chance(1, 8)) {
+    int k = t.range(18, 45);
+    for (int i = 0; i < N; ++i) T[i] = sigma * (1.0 + t.sym(3) * pow2i(-k));
+    shape = 6;
   }
   if (sigma_out) *sigma_out = sigma;
   if (ratio_out) { double mn = T[0], mx = T[0]; for (double x : T) { mn = std::min(mn, x); mx = std::max(mx, x); } *ratio_out = mx / mn; }
